@@ -4,7 +4,7 @@ import Tally.Model.UdpObs
 /-!
 # Model of `m3/thriftudp` (C15): `TUDPTransport`, `TMultiUDPTransport`, and the M3 emission layer
 
-The model follows the behaviour property C15 demands (repair D9 of DESIGN.md):
+The model follows the repaired code (repair D9 of DESIGN.md; Go's `overflow` flag is `poisoned` here):
 
 * a transport is `{buf, closed, poisoned}`;
 * a write on a closed transport → not-open; a write that would make the message exceed
@@ -22,8 +22,8 @@ The socket is an input oracle: every `flush` carries what the socket does with t
 so that theorems hold for every limit; the code's limit is `maxLength`, read from the
 regenerated facts.
 
-`stepPinned` is the transport as it is in the pinned tree (no `poisoned` flag); it is used only
-for the counter-example theorems.
+`stepPinned` is the transport as it was before the repair (no flag); it is used only for the
+Legacy counter-example theorems.
 -/
 namespace Tally.Udp
 open Tally.UdpObs
@@ -129,7 +129,7 @@ def trace (max : Nat) (s : T) : List Op → List Ev
 def delivered (max : Nat) (s : T) (ops : List Op) : List Bytes :=
   (trace max s ops).flatMap (·.recv)
 
-/-! ## The transport as it is in the pinned tree (no poisoning): for counter-examples only -/
+/-! ## Legacy: the transport before the repair (no poisoning): for counter-examples only -/
 
 def acceptPinned (max : Nat) (s : T) (chunk : Bytes) : T × Res :=
   if s.closed then (s, { err := .notOpen })
@@ -140,7 +140,7 @@ def stepPinned (max : Nat) (s : T) : Op → T × Res
   | .write b => acceptPinned max s b
   | .writeByte b => let (s', r) := acceptPinned max s [b]; (s', { r with n := 0 })
   | .writeString b => acceptPinned max s b
-  | .flush sock => flush s sock     -- `poisoned` is never set, so this is the pinned Flush
+  | .flush sock => flush s sock     -- `poisoned` is never set, so this is the Flush before the repair
   | .close ok => close s ok
   | .isOpen => (s, { n := if s.closed then 0 else 1 })
 
@@ -152,7 +152,8 @@ def tracePinned (max : Nat) (s : T) : List Op → List Ev
 
 end Tally.Udp
 
-/-! ## `TMultiUDPTransport`: fan-out exactly as the Go loops do it -/
+/-! ## `TMultiUDPTransport`: fan-out exactly as the Go loops do it (repaired: `Write` and `Flush`
+visit every destination and return the first error; `Close` still returns at the first error) -/
 namespace Tally.UdpMulti
 open Tally.UdpObs Tally.Udp
 
@@ -173,26 +174,27 @@ structure MRes where
   recv : List (List Bytes) := []    -- per destination
   deriving DecidableEq, Repr, Inhabited
 
-/-- `Write`: `for trans { written, err := trans.Write(buff); if err != nil { return n, err };
-if written > n { n = written } }; return n, nil` -/
-def write (max : Nat) : MT → Bytes → Nat → MT × Nat × Err
-  | [], _, n => ([], n, .nil)
-  | t :: ts, b, n =>
+/-- `Write`: every destination sees every write, also after one of them failed; the first error
+is returned; the count is the maximum written over the destinations before the first error:
+`for trans { written, err := trans.Write(buff); if err != nil { if firstErr == nil { firstErr = err };
+continue }; if firstErr == nil && written > n { n = written } }; return n, firstErr` -/
+def write (max : Nat) : MT → Bytes → Nat → Err → MT × Nat × Err
+  | [], _, n, fe => ([], n, fe)
+  | t :: ts, b, n, fe =>
     let (t', r) := accept max t b
-    if r.err ≠ .nil then (t' :: ts, n, r.err)
-    else
-      let (ts', n', e) := write max ts b (if r.n > n then r.n else n)
-      (t' :: ts', n', e)
+    let (ts', n', fe') :=
+      if r.err ≠ .nil then write max ts b n (if fe = .nil then r.err else fe)
+      else write max ts b (if fe = .nil ∧ r.n > n then r.n else n) fe
+    (t' :: ts', n', fe')
 
-/-- `Flush`: `for trans { if err := trans.Flush(); err != nil { return err } }; return nil` -/
-def flush : MT → List Sock → MT × Err × List (List Bytes)
-  | [], _ => ([], .nil, [])
-  | t :: ts, socks =>
+/-- `Flush`: every destination is flushed; the first error is returned:
+`for trans { if err := trans.Flush(); err != nil && firstErr == nil { firstErr = err } }; return firstErr` -/
+def flush : MT → List Sock → Err → MT × Err × List (List Bytes)
+  | [], _, fe => ([], fe, [])
+  | t :: ts, socks, fe =>
     let (t', r) := Udp.flush t (socks.headD .ok)
-    if r.err ≠ .nil then (t' :: ts, r.err, r.recv :: ts.map (fun _ => []))
-    else
-      let (ts', e, ds) := flush ts socks.tail
-      (t' :: ts', e, r.recv :: ds)
+    let (ts', fe', ds) := flush ts socks.tail (if fe = .nil then r.err else fe)
+    (t' :: ts', fe', r.recv :: ds)
 
 /-- `Close`: `for trans { if err := trans.Close(); err != nil { return err } }; return nil` -/
 def close : MT → List Bool → MT × Err
@@ -209,10 +211,10 @@ def isOpen (m : MT) : Bool := m.all (fun t => !t.closed)
 
 def step (max : Nat) (m : MT) : MOp → MT × MRes
   | .write b =>
-    let (m', n, e) := write max m b 0
+    let (m', n, e) := write max m b 0 .nil
     (m', { n := n, err := e, recv := m.map (fun _ => []) })
   | .flush socks =>
-    let (m', e, ds) := flush m socks
+    let (m', e, ds) := flush m socks .nil
     (m', { err := e, recv := ds })
   | .close oks =>
     let (m', e) := close m oks
@@ -247,6 +249,19 @@ def MOp.single : MOp → Udp.Op
   | .close _ => .close true
   | .isOpen => .isOpen
 
+/-- the same call as it reaches destination `d`, with that destination's socket oracle -/
+def MOp.at (d : Nat) : MOp → Udp.Op
+  | .write b => .write b
+  | .flush socks => .flush (socks.getD d .ok)
+  | .close oks => .close (oks.getD d true)
+  | .isOpen => .isOpen
+
+/-- `conn.Close()` succeeds at every destination (it fails only on a socket closed behind the
+transport's back, which the multi transport gives no access to) -/
+def MOp.closeOk : MOp → Bool
+  | .close oks => oks.all (· = true)
+  | _ => true
+
 /-- no socket fault is injected by this call -/
 def MOp.quiet : MOp → Bool
   | .flush socks => socks.all (· = .ok)
@@ -258,7 +273,7 @@ end Tally.UdpMulti
 /-! ## The M3 emission layer on top of one transport
 
 `sendEmitMetricBatchV2` writes the message piecewise and returns on the first write error
-*without flushing*; the (repaired) reporter then calls `Flush` once, which discards the
+*without flushing*; the reporter then calls `Flush` once, which discards the
 poisoned message; otherwise the client itself ends the message with `Flush`. -/
 namespace Tally.M3Batch
 open Tally.UdpObs Tally.Udp
@@ -295,7 +310,7 @@ def reporterOps (max : Nat) (s : T) : List Batch → List Op
 def emitted (max : Nat) (bs : List Batch) : List Bytes :=
   delivered max Udp.init (reporterOps max Udp.init bs)
 
-/-- pinned tree: the client abandons and *nobody* flushes -/
+/-- Legacy (before the repair): the client abandons and *nobody* flushes -/
 def writesUntilErrorPinned (max : Nat) (s : T) : List Bytes → List Op × Bool
   | [] => ([], true)
   | c :: cs =>
